@@ -466,4 +466,109 @@ theorem binND_getD (s : Nat) (dims c : List Nat) (hc : InBounds dims c) (v : Lis
 
 end index
 
+/-! ### tensor fields: the single reshape -/
+
+section
+variable {α : Type}
+
+theorem chunks_one (k : Nat) (l : List α) (h : l.length = k) : chunks 1 k l = l.map fun x => [x] := by
+  induction k generalizing l with
+  | zero => simp at h; simp [chunks, h]
+  | succ k ih =>
+    cases l with
+    | nil => simp at h
+    | cons x l => simp at h; simp [chunks, ih l h]
+
+theorem chunks_take (m k : Nat) (v : List α) : chunks m k (v.take (k * m)) = chunks m k v := by
+  induction k generalizing v with
+  | zero => simp [chunks]
+  | succ k ih =>
+    simp only [chunks]
+    have e : (k + 1) * m = m + k * m := by ring
+    rw [e, List.take_take, List.drop_take]
+    congr 1
+    · congr 1; omega
+    · have : m + k * m - m = k * m := by omega
+      rw [this, ih]
+
+theorem chunks_add (m a b : Nat) (v : List α) :
+    chunks m (a + b) v = chunks m a v ++ chunks m b (v.drop (a * m)) := by
+  induction a generalizing v with
+  | zero => simp [chunks]
+  | succ a ih =>
+    have e : a + 1 + b = (a + b) + 1 := by omega
+    rw [e]
+    simp only [chunks, List.cons_append]
+    rw [ih, List.drop_drop]
+    congr 3
+    rw [Nat.add_mul, Nat.one_mul, Nat.add_comm]
+
+theorem chunks_chunks (M k T : Nat) (v : List α) :
+    (chunks (k * M) T v).flatMap (chunks M k) = chunks M (T * k) v := by
+  induction T generalizing v with
+  | zero => simp [chunks]
+  | succ T ih =>
+    simp only [chunks, List.flatMap_cons]
+    rw [ih, chunks_take]
+    have e : (T + 1) * k = k + T * k := by ring
+    rw [e, chunks_add]
+
+end
+
+section
+variable {K : Type} [Field K]
+
+theorem vadd_vzero_right (n : Nat) (a : List K) (h : a.length = n) : vadd a (vzero n) = a := by
+  induction a generalizing n with
+  | nil => simp [vadd]
+  | cons x a ih =>
+    cases n with
+    | zero => simp at h
+    | succ n =>
+      simp only [List.length_cons, Nat.add_right_cancel_iff] at h
+      have := ih n h
+      simp only [vadd, vzero] at this
+      simp [vadd, vzero, List.replicate_succ, this]
+
+/-- a leading axis with factor 1: the blocks along it are binned one by one -/
+theorem binNDs_one_cons (ss dims : List Nat) (T : Nat) (v : List K) (hv : v.length = T * fineSizes ss dims) :
+    binNDs (1 :: ss) (T :: dims) v = (chunks (fineSizes ss dims) T v).flatMap (binNDs ss dims) := by
+  simp only [binNDs, Nat.mul_one]
+  rw [chunks_one T _ (chunks_length _ _ _), List.flatMap_map]
+  apply List.flatMap_congr
+  intro row hrow
+  have := chunks_mem_length (fineSizes ss dims) T v hv row hrow
+  simp [vsum, vadd_vzero_right _ _ this]
+
+theorem fineSizes_ones_append (ss dims ts : List Nat) :
+    fineSizes (ts.map (fun _ => 1) ++ ss) (ts ++ dims) = size ts * fineSizes ss dims := by
+  induction ts with
+  | nil => simp [size]
+  | cons T ts ih => simp only [List.map_cons, List.cons_append, fineSizes_cons, ih, size_cons]; ring
+
+/-- **the single reshape with the tensor axes in front is component-wise binning** -/
+theorem binTensorL_eq (ss dims : List Nat) : ∀ (ts : List Nat) (v : List K),
+    v.length = size ts * fineSizes ss dims →
+    binTensorL ss dims ts v = (chunks (fineSizes ss dims) (size ts) v).flatMap (binNDs ss dims) := by
+  intro ts
+  induction ts with
+  | nil =>
+    intro v hv
+    simp only [size, List.foldr_nil, Nat.one_mul] at hv
+    simp [binTensorL, size, chunks, List.take_of_length_le (Nat.le_of_eq hv)]
+  | cons T ts ih =>
+    intro v hv
+    simp only [binTensorL, List.map_cons, List.cons_append] at ih ⊢
+    rw [size_cons] at hv ⊢
+    have hm := fineSizes_ones_append ss dims ts
+    rw [binNDs_one_cons _ _ T v (by rw [hm, hv]; ring), hm]
+    have : ∀ blk ∈ chunks (size ts * fineSizes ss dims) T v,
+        binNDs (ts.map (fun _ => 1) ++ ss) (ts ++ dims) blk
+          = (chunks (fineSizes ss dims) (size ts) blk).flatMap (binNDs ss dims) := by
+      intro blk hblk
+      exact ih blk (chunks_mem_length _ T v (by rw [hv]; ring) blk hblk)
+    rw [List.flatMap_congr this, ← List.flatMap_assoc, chunks_chunks]
+
+end
+
 end HcipyVerif.Binning
